@@ -46,7 +46,7 @@ def inner_decl(name, c, annotate):
 def how_blocklisted(k, c):
     """the property names three ways to blocklist a type: by type pattern, by item pattern, by the file that
     declares it - the file reached through a real directory or through a symbolic link"""
-    if c["mark"] != "blocklist":
+    if not c["mark"].startswith("blocklist"):
         return None
     return ["type", "item", "file", "file-symlink"][k % 4]
 
@@ -85,8 +85,10 @@ def flags_for(cases):
     fl = []
     for k, c in enumerate(cases):
         n = "I%04d" % k
-        if c["mark"] == "blocklist":
+        if c["mark"].startswith("blocklist"):
             il = c["inner"]
+            if c["mark"] == "blocklist+opaque":
+                fl += ["--opaque-type", n]
             how = how_blocklisted(k, c)
             fl += {"type": ["--blocklist-type", n], "item": ["--blocklist-item", n],
                    "file": ["--blocklist-file", ".*/inc/%s\\.h" % n],
@@ -188,7 +190,7 @@ def one_language(res, tier, cases, cxx):
         n, cn = "I%04d" % k, "C%04d" % k
         shape = "%s:%s:%s" % (c["mark"], c["attr"], tag)
         defs = structs.get(n, [])
-        if c["mark"] == "blocklist":
+        if c["mark"].startswith("blocklist"):
             if len(defs) != 1 or defs[0]["fields"] != [["_b", "[u8 ; %d]" % c["inner"]["size"], True]]:
                 res.violation("blocklisted-type-defined:" + shape, {"type": n, "definitions": [d.get("tokens") for d in defs]})
             if n in comps:
